@@ -211,6 +211,7 @@ def sx(name, **kw):
 
 
 _cost_table = None
+QUICK_TARGET = 400000     # executions one quick tier can complete in ~150 s on 16 idle cores (measured ~2.7k executions/s)
 
 
 def _cost(t):
@@ -224,13 +225,28 @@ def _cost(t):
             _cost_table = {}
     if t.get("engine") != "dsched":
         return -1
-    key = "%s:%d:%d:%s:%s" % (t["harness"], t["variant"], t["k"], t.get("mode", "pb"), "full" if t.get("env", {}).get("VX_IO_FULL") else "")
+    key = "%s:%d:%d:%s:%s:%d" % (t["harness"], t["variant"], t["k"], t.get("mode", "pb"), "full" if t.get("env", {}).get("VX_IO_FULL") else "", t.get("ncpu", 2))
     return _cost_table.get(key, 0)
 
 
 def tasks_for(pid, tier):
     """cheapest first: a wall-clock budget then cuts only the most expensive programs"""
     ts = _tasks_for(pid, tier)
+    if tier == "quick":
+        # fit the quick tier to its budget: while the measured executions of the list exceed QUICK_TARGET, the most expensive
+        # program runs one bound lower (the thorough tier keeps the nominal bounds); the evidence lists the bound each program
+        # completed.  Unmeasured tasks count as 0 and are never demoted.
+        def total():
+            return sum(max(0, _cost(t)) for t in ts)
+        guard = 0
+        while total() > QUICK_TARGET and guard < 200:
+            guard += 1
+            cand = [t for t in ts if t.get("engine") == "dsched" and t["k"] > 0 and _cost(t) > 0]
+            if not cand:
+                break
+            t = max(cand, key=_cost)
+            t["k"] -= 1
+            t["demoted"] = t.get("demoted", 0) + 1
     return sorted(ts, key=_cost)     # stable: equal costs keep the hand-written order
 
 
